@@ -1,6 +1,6 @@
 use crate::algorithm::{base64_hash, HashAlgorithm};
 use crate::Error;
-use rand::{rngs::StdRng, Rng, SeedableRng};
+use base64::Engine;
 
 #[derive(Debug, Clone)]
 pub struct Decoy {
@@ -19,11 +19,11 @@ impl Decoy {
     }
 
     pub fn build(self) -> Result<Decoy, Error> {
-        let seed: [u8; 32] = rand::random();
-        let mut rng = StdRng::from_seed(seed);
-        let random_number: u32 = rng.gen();
+        // hash 256 random bits, like a real digest hashes a disclosure with a random salt
+        let random_bytes: [u8; 32] = rand::random();
+        let random_value = base64::engine::general_purpose::URL_SAFE_NO_PAD.encode(random_bytes);
 
-        let digest = base64_hash(self.algorithm, &random_number.to_string());
+        let digest = base64_hash(self.algorithm, &random_value);
 
         Ok(Decoy {
             digest,
